@@ -39,6 +39,7 @@ import LccModel.Lemmas.SavingLink
 import LccModel.Lemmas.SavingG
 import LccModel.Lemmas.JsonRender
 import LccModel.Model.Store
+import LccModel.Model.Junit
 
 namespace LccModel.C10
 open LccModel.Report LccModel.Writer LccModel.Saving
@@ -339,6 +340,48 @@ theorem failing_save_loses_the_rest {saveOk : Report → Bool} {strat : Strategy
   rw [sessRunG_stops h es]
   exact ⟨rfl, rfl⟩
 
+/-! ### Several file backends on one run; the JUnit backend -/
+
+/-- **One raising save stops every backend.**  With the file backends `bs` attached to the run (any number, any order),
+    if handling an event is stopped by a save, then some attached backend refuses the report the writer has just
+    produced — and for the rest of the stream nothing is saved by ANY backend: `saves` stays as it was (no later
+    refresh of report.js / report.xml / report-junit.xml, no save at the end of the session). -/
+theorem one_raising_save_stops_every_backend {bs : List (Report → Bool)} {strat : Strategy} {clock : Nat → Nat} {s : Sess}
+    {e : Event} (h : sessStepG (allOk bs) strat clock s e = .error .save) (es : List Event) :
+    (∃ w', Writer.apply s.w e = .ok w' ∧ ∃ b ∈ bs, b w'.report = false) ∧
+    (sessRunG (allOk bs) strat clock s (e :: es)).1.saves = s.saves ∧
+    (sessRunG (allOk bs) strat clock s (e :: es)).2 = some .save := by
+  obtain ⟨w', hw, hno⟩ := sessStepG_save_error h
+  refine ⟨⟨w', hw, allOk_false hno⟩, ?_, ?_⟩ <;> rw [sessRunG_stops h es]
+
+/-- If no attached backend ever refuses a report, the run is the ideal session of the theorems above. -/
+theorem all_attached_ok_is_ideal {bs : List (Report → Bool)} (hok : ∀ b ∈ bs, ∀ r, b r = true) (strat : Strategy)
+    (clock : Nat → Nat) (s s' : Sess) (es : List Event) (h : sessRun strat clock s es = .ok s') :
+    sessRunG (allOk bs) strat clock s es = (s', none) :=
+  sessRunG_of_ok (fun r => List.all_eq_true.mpr (fun b hb => hok b hb r)) strat clock es s s' h
+
+/-- **A JUnit save is total**: for every report in which the times the serialiser cannot do without are set (the
+    session's start time once it has ended, every test's start time — what the writer always sets) the JUnit document
+    is built, whatever else the report holds: tests IN PROGRESS (no end time, no duration), unfinished steps, any
+    status, empty suites, any nesting. -/
+theorem junit_save_never_raises (r : Report) (h : Junit.timesOk r = true) : ∃ x, Junit.toJunit r = .ok x :=
+  ⟨Junit.build r, by simp [Junit.toJunit, h]⟩
+
+/-- The `time` of a `<testsuite>` is the sum over its FINISHED tests: a test without duration counts 0 … -/
+theorem junit_suite_time_ignores_in_progress (ts : List TestResult) (t : TestResult) (h : Junit.duration? t.result = none) :
+    Junit.suiteTime (ts ++ [t]) = Junit.suiteTime ts := by
+  simp [Junit.suiteTime, Junit.durOr0, h]
+
+/-- … whereas the sum WITHOUT the `or 0` (`sum(t.duration for t in tests)`) has no value as soon as one test of the
+    suite is in progress: that serialiser would raise at every save taken in the middle of a test. -/
+theorem junit_strict_sum_undefined_mid_test (ts : List TestResult) (t : TestResult) (h : Junit.duration? t.result = none) :
+    Junit.strictSum (ts ++ [t]) = none := by
+  induction ts with
+  | nil => simp [Junit.strictSum, h]
+  | cons a as ih =>
+    simp only [List.cons_append, Junit.strictSum, ih]
+    cases Junit.duration? a.result <;> rfl
+
 /-! ### Which strategy: `--save-report`, `$LCC_SAVE_REPORT`, the default -/
 
 /-- The command-line option, when given (non-empty), decides — whatever `$LCC_SAVE_REPORT` holds. -/
@@ -561,6 +604,23 @@ theorem xml_save_stops_session :
     (match sessRunG xmlSaveOk .atEachLog (fun _ => 0) (Sess.init (fun _ => 0)) demoSurrogate with
      | (s, err) => (s.handled, s.saves.length, err)) = (4, 0, some .save) ∧
     (match sessRunG xmlSaveOk .atEachLog (fun _ => 0) (Sess.init (fun _ => 0)) demo with
+     | (s, err) => (s.handled, s.saves.length, err)) = (17, 3, none) := by decide +kernel
+
+/-- a save in the middle of test `a` of the demo stream (5 events handled): the JUnit document is built, its suite
+    counts 0 ms for the test in progress, and the strict sum has no value -/
+theorem junit_mid_test_save :
+    (match fold (demo.take 5) with
+     | .ok r => (Junit.timesOk r, (Junit.toJunit r).toOption.isSome, (allTests r).map (fun t => Junit.duration? t.result),
+                 Junit.strictSum (allTests r))
+     | .error _ => (false, false, [], none)) = (true, true, [none], none) := by decide +kernel
+
+/-- json + junit attached, `at_each_log`, and a JUnit serialiser that refuses tests in progress (the strict sum): the run
+    stops at the first log — nothing is ever saved by either backend; with the real rule it runs to the end -/
+theorem strict_junit_stops_json_too :
+    (match sessRunG (allOk [fun _ => true, fun r => (Junit.strictSum (allTests r)).isSome]) .atEachLog (fun _ => 0)
+        (Sess.init (fun _ => 0)) demo with
+     | (s, err) => (s.handled, s.saves.length, err)) = (4, 0, some .save) ∧
+    (match sessRunG (allOk [fun _ => true, Junit.saveOkEnc .utf8]) .atEachLog (fun _ => 0) (Sess.init (fun _ => 0)) demo with
      | (s, err) => (s.handled, s.saves.length, err)) = (17, 3, none) := by decide +kernel
 
 /-- a prefix-free serialiser exists (hypothesis of `inplace_crash_not_loadable`): a constant one -/
